@@ -112,6 +112,8 @@ type State struct {
 	panicking  bool
 	panicVal   string
 	held       map[string]bool
+	heapEpoch  int // number of havoc-everything events so far: families first read afterwards must not alias the entry version
+	ghostEpoch int
 	lets       map[string]Value
 	dead       bool
 	trace      []string
@@ -122,7 +124,7 @@ type State struct {
 
 func (st *State) clone() *State {
 	n := &State{env: make(map[types.Object]Value, len(st.env)), heap: make(map[string]string, len(st.heap)),
-		pc: append([]string(nil), st.pc...), panicking: st.panicking, panicVal: st.panicVal, inDeferLit: st.inDeferLit, recovered: st.recovered,
+		pc: append([]string(nil), st.pc...), heapEpoch: st.heapEpoch, ghostEpoch: st.ghostEpoch, panicking: st.panicking, panicVal: st.panicVal, inDeferLit: st.inDeferLit, recovered: st.recovered,
 		held: map[string]bool{}, lets: map[string]Value{}, trace: append([]string(nil), st.trace...)}
 	for k, v := range st.env {
 		n.env[k] = v
